@@ -148,6 +148,11 @@ def check_invs(ex, invs, st, label, lid, extra_env):
         g = ex.spec_bool(e, ps)
         ex.cx.oblige("%s/%s:%s/%s" % (_short(ex.current_contract.target), lid, name, label), st, g,
                      {"kind": "loop-invariant", "function": ex.current_contract.target})
+        # invariants are proved in the order they are listed; an earlier one is a lemma for the later ones
+        # (proving A, then A => B, proves A and B)
+        if g != "true":
+            st = st.assume(g)
+            ps = st.copy(env=env, spec=True, old=pre)
 
 
 def assume_invs(ex, invs, st, extra_env):
